@@ -8,60 +8,203 @@ from ..core import frac
 from . import _call as K
 
 LEVEL = "proof"
-RULE = ("tables of 40 rows per do_call; rows generated from a known tumour copy number n in 0..12 "
+RULE = ("tables of 1..60 rows per call; rows generated from a known tumour copy number n in 0..12 "
         "(log2 = log2((p*n+(1-p)*x)/r) with r, x from the property's prose table) over purity grid "
-        "(dyadic, decimal, random, 1.0, None) x ploidy 1..6 x {auto, X, Y, PAR-X, PAR-Y incl. boundary "
-        "coordinates +-1} x hapX x female x naming style x {none, grch37, grch38}; plus rows with integer / "
-        "random log2 in [-30, 30]. non-trivial = the table has a sex-chromosome or PAR row, or a purity < 1; "
-        "distinct by hash of the case")
+        "(dyadic, decimal, 0.001..0.99999, random, 1.0 as float / int / numpy float, None) x ploidy 1..6 x {auto, X, Y, "
+        "PAR-X, PAR-Y incl. boundary coordinates +-1} x hapX x female x naming style x {none, grch37, grch38; also spelled "
+        "GRCh37/GRCh38}; plus rows with integer / random log2 in [-30, 30]. Explicit grids: every (ploidy, hapX, female, "
+        "genome) cell at a purity < 1, every (ploidy, hapX, naming, purity None / 1.0) cell on the pure path (there the "
+        "genome option is given but must be ignored: rows with PAR coordinates keep the copies of their chromosome "
+        "name); tables made of one chromosome class only (all X, all Y, X+Y, all PAR). Doors: do_call positionally, "
+        "do_call by keyword with the defaults left implicit, do_call twice on the same object, the entry points "
+        "absolute_clonal / absolute_dataframe (purity < 1, and None / 1.0 as `export` calls them: reference copies "
+        "then follow the genome option) / absolute_pure / absolute_expect / absolute_reference / log2_ratios called "
+        "directly, and `cnvkit.py call` (every spelling of -x/-g and of -y, sample sex left out = inferred, --ploidy "
+        "and -t left out at their defaults). Table representations: fresh RangeIndex, boolean-mask subset of a larger "
+        "table (index labels != positions), repeated index labels, extra columns (depth, probes, weight, ci_lo, "
+        "ci_hi, a stale cn), shuffled column order. non-trivial = the table has a sex-chromosome or PAR row, or a "
+        "purity < 1; distinct by hash of the case")
 EXHAUSTIVE = {"quick": False, "thorough": False}
 ASSUMPTIONS = ["ratio space: the model receives the exact value of the double 2**log2 computed by Python; "
                "float rounding inside r*t, /p and np.log2 is covered by the 1e-9 tolerance and the knife-edge rule",
-               "inversion clause needs r > 0 (ploidy 1 gives ploidy//2 = 0 on Y / haploid X; such rows carry no n)"]
+               "inversion clause needs r > 0 (ploidy 1 gives ploidy//2 = 0 on Y / haploid X; such rows carry no n)",
+               "command line with the sample sex left out: the model is given the sex that guess_xx infers from the "
+               "table as read (C15's subject); the tie then covers verify_sample_sex and the option plumbing",
+               "absolute_clonal / absolute_dataframe called directly WITHOUT a purity (None, 1.0): the driver has no op "
+               "for this door (do_call never takes it); cn = nearest integer to r*2^log2 with r from the prose table "
+               "(genome-aware) is checked in exact rational arithmetic by the harness itself"]
 TRUSTED_EXTRA = ["numpy round (half-even), np.log2, float pow"]
-CLAUSES = {"cn_nonneg", "cn_is_n", "ratio_of_pure_sample", "cn_nearest_integer"}
+CLAUSES = {"cn_nonneg", "cn_is_n", "ratio_of_pure_sample", "cn_nearest_integer", "reference_expect_table"}
 
 run_impl = K.run_impl
-to_line = K.to_line
-judge = K.judge_with(CLAUSES)
 shrink = K.shrink
+_judge = K.judge_with(CLAUSES)
 
-PURITIES = [0.25, 0.5, 0.75, 0.125, 0.3, 0.1, 0.9, 0.05, 0.999, 1.0, None]
+
+def _active(i):
+    p = i["purity_f"]
+    return i["purity"] is not None and bool(p) and p < 1.0
+
+
+def _pure_direct(i):
+    """absolute_clonal / absolute_dataframe called directly without a purity: reference copies come from the
+    genome-aware table although no purity rescaling happens (the path `export bed/vcf` takes)"""
+    return i.get("entry") in ("absolute_clonal", "absolute_dataframe") and not _active(i)
+
+
+def to_line(case, impl):
+    line = K.to_line(case, impl)
+    if _pure_direct(case["in"]):
+        line.pop("impl", None)  # judged by the harness (see ASSUMPTIONS); the driver's pure path is do_call's
+    return line
+
+
+def _cls_of(row, first, par):
+    """chromosome class of a row as the property's prose defines it (independent of the Lean model)"""
+    pre = "chr" if first.startswith("chr") else ""
+    c, s, e = row[0], row[1], row[2]
+    for k in ("X", "Y"):
+        if c == pre + k:
+            if par is not None:
+                t = K.PAR[par.lower()]
+                if any(s >= t[q + k][0] and e <= t[q + k][1] for q in ("PAR1", "PAR2")):
+                    return "par" + k.lower()
+            return k.lower()
+    return "auto"
+
+
+def _round_slack(q):
+    d = q - math.floor(q)
+    return abs(d - Fraction(1, 2))
+
+
+def judge(case, impl, resp):
+    i = case["in"]
+    if isinstance(impl, dict) and "__error__" in impl:
+        return _judge(case, impl, resp)
+    spec, dis, sk = [], [], None
+    if not _pure_direct(i):
+        spec, dis, sk = _judge(case, impl, resp)
+        if i.get("cli"):
+            # the written log2 has 6 significant digits: the rewritten ratio is compared with the model (5e-5),
+            # not with the closed form at 1e-9
+            spec = [c for c in spec if c != "ratio_of_pure_sample"]
+    if isinstance(impl, dict) and "direct" in impl:
+        d, out = impl["direct"], impl["out"]
+        rows = i["rows"]
+        first = rows[0][0] if rows else ""
+        want = [K.prose_copies(_cls_of(r, first, i["par"]), i["ploidy"], i["hapX"], i["female"]) for r in rows]
+        if len(out) != len(rows) or d.get("len_ok") is False:
+            return spec, dis + ["row count"], None
+        if "reference" in d:
+            # the table of (reference, germline) copies itself, per row, from all three functions that return it
+            if (d["reference"] != [w[0] for w in want] or d["expect"] != [w[1] for w in want]
+                    or d["abs_reference"] != d["reference"] or d["abs_expect"] != d["expect"]):
+                spec.append("reference_expect_table")
+        if _pure_direct(i):
+            for r, n, o, (rr, _x) in zip(rows, i["n"], out, want):
+                q = Fraction(rr) * Fraction(r[4])
+                cn = o[0]
+                if cn is None or cn < 0:
+                    spec.append("cn_nonneg")
+                    break
+                if _round_slack(q) < Fraction(1, 10 ** 9):
+                    sk = "rounding boundary within 1e-9"
+                    continue
+                if abs(cn - q) > Fraction(1, 2):
+                    spec.append("cn_nearest_integer")
+                    break
+                if n is not None and cn != n:
+                    spec.append("cn_is_n")
+                    break
+                if o[1] is not None:
+                    dis.append("log2 rewritten without a purity")
+                    break
+    return spec, dis, (sk if not dis and not spec else None)
+
+
+PURITIES = [0.25, 0.5, 0.75, 0.125, 0.3, 0.1, 0.9, 0.05, 0.999, 1.0, None, 0.001, 0.01, 0.99999, 1.0, None]
+EXTRA_COLS = ["depth", "probes", "weight", "ci_lo", "ci_hi", "cn"]
+
+
+def _decorate(rng, c, share=1.0):
+    """representation / call-style variations that must not change any answer"""
+    i = c["in"]
+    tags = []
+    if rng.random() < 0.3 * share:
+        i["sub"] = rng.randint(0, 10 ** 6)
+        tags.append("sub")
+    elif rng.random() < 0.1 * share:
+        i["dupidx"] = True
+        tags.append("dupidx")
+    if rng.random() < 0.3 * share:
+        i["extra"] = [n for n in EXTRA_COLS if rng.random() < 0.5] or ["cn"]
+        if i["method"] == "none":
+            # no call is made: a `cn` column of an earlier call would just be carried along (nothing to observe)
+            i["extra"] = [n for n in i["extra"] if n != "cn"] or ["depth"]
+        tags.append("extra")
+    if rng.random() < 0.2 * share:
+        i["colorder"] = rng.randint(0, 10 ** 6)
+        tags.append("colorder")
+    if not i.get("entry"):
+        k = rng.random()
+        if k < 0.3 * share:
+            i["callstyle"] = "kwargs"
+            tags.append("kwargs")
+        if rng.random() < 0.15 * share:
+            i["repeat"] = True
+            tags.append("twice")
+    if i["par"] and rng.random() < 0.3 * share:
+        i["par_f"] = {"grch37": "GRCh37", "grch38": "GRCh38"}[i["par"]]
+    if i["purity_f"] == 1.0 and rng.random() < 0.6:
+        i["purity_kind"] = rng.choice(["int", "np"])
+    elif i["purity_f"] is not None and rng.random() < 0.15 * share:
+        i["purity_kind"] = "np"
+    if tags:
+        c["tag"] += "+" + "+".join(tags)
+    return c
 
 
 def _table(rng, nrows=40, force=None):
+    force = force or {}
     ploidy = rng.randint(1, 6)
     purity = rng.choice(PURITIES) if rng.random() < 0.7 else round(rng.uniform(0.02, 1.0), rng.choice([2, 3, 6]))
     hapx, female = rng.random() < 0.5, rng.random() < 0.5
     style = rng.choice(["chr", "plain"])
     par = rng.choice([None, None, "grch37", "grch38"])
     method = "clonal" if rng.random() < 0.85 else "none"
-    if force:
-        ploidy, purity, hapx, female, par = (force.get("ploidy", ploidy), force.get("purity", purity),
-                                            force.get("hapX", hapx), force.get("female", female), force.get("par", par))
+    ploidy, purity, hapx, female, par, style, method = (
+        force.get("ploidy", ploidy), force.get("purity", purity), force.get("hapX", hapx), force.get("female", female),
+        force.get("par", par), force.get("style", style), force.get("method", method))
+    entry = force.get("entry")
     active = purity is not None and purity and purity < 1.0
+    # reference copies follow the genome option (PAR rows) on the purity path, and whenever absolute_clonal /
+    # absolute_dataframe are entered directly; do_call without a purity and absolute_pure go by chromosome name
+    by_table = active or entry in ("absolute_clonal", "absolute_dataframe")
     rows, log2s, ns = [], [], []
-    classes = ["auto", "auto", "x", "y"] + (["parx", "pary"] if (par and active) else [])
+    classes = force.get("classes") or (["auto", "auto", "x", "y"] + (["parx", "pary"] if par else []))
+    if not par:
+        classes = [c for c in classes if c not in ("parx", "pary")] or ["x", "y"]
     first_cls = rng.choice(classes)
     for k in range(nrows):
         cls = first_cls if k == 0 else rng.choice(classes)
-        c, s, e = K.make_row(rng, cls, style, par if active else None) if cls in ("auto", "x", "y") else K.make_row(rng, cls, style, par)
+        c, s, e = K.make_row(rng, cls, style, par)
         n = None
         kind = rng.random()
         lg = None
         if kind < 0.7:
-            n = rng.randint(0, 12)
-            if active:
+            n = rng.randint(0, 12) if rng.random() < 0.85 else rng.choice([0, 0, 1, 12])
+            if by_table:
                 # which class does the code give this row? boundary rows made by make_row("x"/"y") are outside PAR
                 r, x = K.prose_copies(cls, ploidy, hapx, female)
-                mix = purity * n + (1 - purity) * x
+                mix = purity * n + (1 - purity) * x if active else n
             else:
                 # pure path: reference copies by chromosome name only
                 r = ploidy // 2 if (cls in ("y", "pary") or (hapx and cls in ("x", "parx"))) else ploidy
                 mix = n
             if r > 0 and mix > 0:
                 lg = math.log2(mix / r)
-            elif cls == "pary" and active:
+            elif cls == "pary" and by_table:
                 # reference 0 copies: any log2; the property's premise has no r to divide by -> cn must be 0
                 lg = rng.uniform(-3, 3)
                 n = 0
@@ -77,11 +220,15 @@ def _table(rng, nrows=40, force=None):
         rows.append([c, s, e, frac(lg), frac(2.0 ** lg), None])
         log2s.append(lg)
         ns.append(n)
-    return {"op": "call", "tag": f"{method}-{'purity' if active else 'pure'}",
+    case = {"op": "call", "tag": f"{method}-{'purity' if active else 'pure'}",
             "in": {"rows": rows, "log2_f": log2s, "n": ns, "method": method, "ploidy": ploidy,
                    "purity": None if purity is None else frac(purity), "purity_f": purity,
                    "hapX": hapx, "female": female, "par": par, "thr": [frac(t) for t in K.DEFAULT_THR],
                    "thr_f": list(K.DEFAULT_THR), "has_baf": False}}
+    if entry:
+        case["in"]["entry"] = entry
+        case["tag"] += "-" + entry
+    return case
 
 
 def corpus():
@@ -97,26 +244,85 @@ def corpus():
     return [c]
 
 
+SIZES = [1, 1, 2, 3, 5, 12, 24, 40, 40, 60]
+
+
+def _cli_case(rng, nrows=30, force=None):
+    """the same calls through the command line (`cnvkit.py call` on a written .cns): option parsing, file reading
+    (sorted rows, %.6g values), sample-sex handling and the writer are then inside the tie"""
+    c = _table(rng, nrows, force=dict(force or {}, method="clonal" if rng.random() < 0.9 else "none"))
+    i = c["in"]
+    p = i["purity_f"]
+    if p is not None and not (0.0 < p <= 1.0):
+        return None
+    i["cli"] = True
+    opts = {"implicit": rng.random() < 0.5}
+    k = rng.random()
+    if k < 0.25:
+        opts["sex"] = None  # not stated: inferred by the command itself
+    elif k < 0.9:
+        opts["sex"] = rng.choice(K.SEX_FEMALE if i["female"] else K.SEX_MALE)
+        opts["sex_flag"] = rng.choice(["-x", "--sample-sex", "-g", "--gender"])
+    opts["hapx_flag"] = rng.choice(["-y", "--male-reference", "--haploid-x-reference"])
+    i["cli_opts"] = opts
+    if rng.random() < 0.4:
+        i["extra"] = [n for n in EXTRA_COLS if rng.random() < 0.5 and not (n == "cn" and i["method"] == "none")] or ["weight"]
+    if i["par"] and rng.random() < 0.3:
+        i["par_f"] = {"grch37": "GRCh37", "grch38": "GRCh38"}[i["par"]]
+    # rows with the same coordinates cannot be told apart after sorting; 6 digits of log2 move the absolute copy
+    # number by at most 12 * 5e-7 / purity: far from a rounding boundary for purity >= 0.02
+    i["keep_n"] = opts.get("sex", "") is not None and (p is None or p >= 0.02)
+    c["tag"] += "-cli" + ("-sex-inferred" if opts.get("sex", "") is None else "")
+    return c
+
+
 def gen_cases(rng, tier):
-    n = {"quick": 120, "thorough": 1200, "search": 400}[tier]
-    cases = [_table(rng) for _ in range(n)]
-    # the same calls through the command line (`cnvkit.py call` on a written .cns): option parsing, file
-    # reading (sorted rows, %.6g values), sample-sex handling and the writer are then inside the tie
-    for _ in range({"quick": 16, "thorough": 160, "search": 16}[tier]):
-        c = _table(rng, 30)
-        if c["in"]["purity_f"] is not None and not (0.0 < c["in"]["purity_f"] <= 1.0):
-            continue
-        c["in"]["cli"] = True
-        c["tag"] += "-cli"
-        cases.append(c)
-    # make sure every (ploidy, hapX, female, par) cell appears with an active purity
+    q = tier != "thorough"
+    cases = []
+    for _ in range({"quick": 90, "thorough": 1200, "search": 400}[tier]):
+        cases.append(_decorate(rng, _table(rng, rng.choice(SIZES))))
+    for _ in range({"quick": 28, "thorough": 240, "search": 28}[tier]):
+        c = _cli_case(rng, rng.choice([1, 2, 10, 30, 30]))
+        if c:
+            cases.append(c)
+    # the entry points below do_call, called directly (they are public: `export` uses them with purity 1.0)
+    for _ in range({"quick": 48, "thorough": 400, "search": 48}[tier]):
+        entry = rng.choice(["absolute_clonal", "absolute_dataframe", "absolute_dataframe", "absolute_pure"])
+        f = {"entry": entry, "method": "clonal"}
+        if entry == "absolute_pure":
+            f["purity"] = None
+        elif rng.random() < 0.5:
+            f["purity"] = rng.choice([None, 1.0, 1.0])
+        else:
+            f["purity"] = rng.choice([0.25, 0.3, 0.5, 0.9, 0.05, round(rng.uniform(0.02, 0.99), 3)])
+        if rng.random() < 0.6:
+            f["par"] = rng.choice(["grch37", "grch38"])
+        cases.append(_decorate(rng, _table(rng, rng.choice([1, 3, 16, 30]), force=f)))
     if tier != "search":
+        # every (ploidy, hapX, female, par) cell with an active purity
         for ploidy in range(1, 7):
             for hapx in (False, True):
                 for female in (False, True):
                     for par in (None, "grch37", "grch38"):
-                        cases.append(_table(rng, 24, force={"ploidy": ploidy, "hapX": hapx, "female": female,
-                                                            "par": par, "purity": rng.choice([0.25, 0.3, 0.5, 0.9])}))
+                        cases.append(_decorate(rng, _table(rng, 16 if q else 24, force={
+                            "ploidy": ploidy, "hapX": hapx, "female": female, "par": par, "method": "clonal",
+                            "purity": rng.choice([0.25, 0.3, 0.5, 0.9])}), share=0.5))
+        # every (ploidy, hapX, naming) cell WITHOUT a purity (None, 1.0): copies by chromosome name, the genome
+        # option given but without effect (rows inside the PAR coordinates included)
+        for ploidy in range(1, 7):
+            for hapx in (False, True):
+                for style in ("chr", "plain"):
+                    cases.append(_decorate(rng, _table(rng, 16, force={
+                        "ploidy": ploidy, "hapX": hapx, "style": style, "method": "clonal",
+                        "purity": rng.choice([None, 1.0]), "par": rng.choice([None, "grch37", "grch38"]),
+                        "classes": ["auto", "x", "y", "parx", "pary"]}), share=0.5))
+        # tables of one chromosome class only (the naming style and so the X / Y labels come from the first row)
+        for classes in (["x"], ["y"], ["x", "y"], ["parx"], ["pary"], ["parx", "pary", "x", "y"]):
+            for purity in (0.5, 0.3, None):
+                cases.append(_decorate(rng, _table(rng, rng.choice([1, 2, 8]), force={
+                    "classes": classes, "purity": purity, "method": "clonal",
+                    "par": rng.choice(["grch37", "grch38"]) if classes[0].startswith("par") else rng.choice([None, "grch38"])}),
+                    share=0.5))
     return cases
 
 
